@@ -10,16 +10,27 @@ enum RIn { Ipa(String, SegS), Mat(Vec<(usize, bool)>), Bound }
 #[derive(Clone, Debug)]
 enum ROut { Repl(String), Plus(String), Remove }
 #[derive(Clone, Debug)]
-struct Rom { input: RIn, output: ROut }
+struct Rom { input: RIn, output: ROut, /// `:[±long, ±overlong]` on the input (then a whole run is matched and replaced)
+    len: (Option<bool>, Option<bool>), /// the input is spelled with this class letter (it denotes the same features as the matrix)
+    class: Option<&'static str> }
+
+/// the class letters of alias files and the matrices they stand for (alias/parser.rs group_to_matrix)
+const CLASSES: &[(&str, &[(usize, bool)])] = &[("C", &[(2, false)]), ("O", &[(0, true), (1, false), (2, false)]), ("S", &[(0, true), (1, true), (2, false)]),
+    ("L", &[(0, true), (1, true), (2, false), (4, true)]), ("N", &[(0, true), (1, true), (2, false), (4, false), (6, true)]), ("G", &[(0, false), (1, true), (2, false)]), ("V", &[(0, false), (1, true), (2, true)])];
 
 fn seg_of(t: &str) -> Option<SegS> { match guarded(|| verif::parse_word(t, &[])) { Out::Ok(w) if w.sylls.len() == 1 && w.sylls[0].segs.len() == 1 => Some(w.sylls[0].segs[0]), _ => None } }
 
 impl Rom {
     fn text(&self) -> String {
-        let i = match &self.input { RIn::Ipa(t, _) => t.clone(), RIn::Mat(f) => format!("[{}]", f.iter().map(|(i, p)| format!("{}{}", if *p { "+" } else { "-" }, crate::gen::FEATS[*i])).collect::<Vec<_>>().join(", ")), RIn::Bound => "$".into() };
+        let i = match &self.input { RIn::Ipa(t, _) => t.clone(), RIn::Mat(_) if self.class.is_some() => self.class.unwrap().to_string(), RIn::Mat(f) => format!("[{}]", f.iter().map(|(i, p)| format!("{}{}", if *p { "+" } else { "-" }, crate::gen::FEATS[*i])).collect::<Vec<_>>().join(", ")), RIn::Bound => "$".into() };
         let o = match &self.output { ROut::Repl(s) => s.clone(), ROut::Plus(s) => format!("+{s}"), ROut::Remove => "*".into() };
-        format!("{i} > {o}")
+        let l: Vec<String> = [(self.len.0, "long"), (self.len.1, "overlong")].iter().filter_map(|(v, n)| v.map(|b| format!("{}{n}", if b { "+" } else { "-" }))).collect();
+        if l.is_empty() { format!("{i} > {o}") } else { format!("{i}:[{}] > {o}", l.join(", ")) }
     }
+    fn len_ok(&self, run: usize) -> bool {
+        (match self.len.0 { Some(true) => run >= 2, Some(false) => run <= 1, None => true }) && (match self.len.1 { Some(true) => run >= 3, Some(false) => run <= 2, None => true })
+    }
+    fn has_len(&self) -> bool { self.len.0.is_some() || self.len.1.is_some() }
     fn matches(&self, s: &SegS) -> bool {
         match &self.input { RIn::Ipa(_, x) => x == s, RIn::Mat(f) => f.iter().all(|(i, p)| crate::c04::spec_match(*s, *i, *p)), RIn::Bound => false }
     }
@@ -32,9 +43,14 @@ fn reference_romanise(w: &WordS, roms: &[Rom]) -> String {
     let mut buf = String::new();
     for (i, sy) in w.sylls.iter().enumerate() {
         match sy.stress { 1 => buf.push('ˈ'), 2 => buf.push('ˌ'), _ => if i > 0 { buf.push('.') } }
+        let mut skip = 0;
         for (j, s) in sy.segs.iter().enumerate() {
+            if j < skip { continue }
             if j > 0 && sy.segs[j - 1] == *s { buf.push('ː'); continue }
-            match roms.iter().find(|r| r.matches(s)) {
+            let run = sy.segs[j..].iter().take_while(|x| *x == s).count();
+            match roms.iter().find(|r| r.matches(s) && r.len_ok(run)) {
+                // a romaniser that names a length stands for the whole run
+                Some(r) if r.has_len() => { skip = j + run; match &r.output { ROut::Repl(t) => buf.push_str(t), ROut::Plus(t) => { buf.push_str(&render_seg(*s)); buf.push_str(t) }, ROut::Remove => {} } }
                 Some(r) => match &r.output { ROut::Repl(t) => buf.push_str(t), ROut::Plus(t) => { buf.push_str(&render_seg(*s)); buf.push_str(t) }, ROut::Remove => {} },
                 None => buf.push_str(&render_seg(*s)),
             }
@@ -86,7 +102,14 @@ pub fn spec(args: &[String]) -> i32 {
                 3 | 4 => RIn::Mat(vec![[(6, true), (11, true), (2, true), (3, false), (11, false), (0, true)][g.rng.below(6)]]), _ => RIn::Bound };
             let f = FRESH[g.rng.below(FRESH.len())].to_string();
             let output = match (&input, g.rng.below(4)) { (RIn::Bound, 0) => ROut::Remove, (RIn::Bound, _) => ROut::Repl(f), (_, 0) => ROut::Remove, (_, 1) => ROut::Plus(f), _ => ROut::Repl(f) };
-            roms.push(Rom { input, output });
+            let mut r = Rom { input, output, len: (None, None), class: None };
+            // a quarter of the segment romanisers name a length, some are spelled with a class letter
+            if !matches!(r.input, RIn::Bound) && !matches!(r.output, ROut::Plus(_)) && g.rng.chance(1, 4) {
+                r.len = [(Some(true), None), (Some(false), None), (None, Some(true)), (None, Some(false)), (Some(true), Some(false)), (Some(true), Some(true))][g.rng.below(6)];
+                st.inc("c15.romaniser.with_length");
+            }
+            if matches!(r.input, RIn::Mat(_)) && g.rng.chance(1, 3) { let (c, f) = CLASSES[g.rng.below(CLASSES.len())]; r.input = RIn::Mat(f.to_vec()); r.class = Some(c); st.inc("c15.romaniser.class_letter"); }
+            roms.push(r);
         }
         if roms.is_empty() { continue }
         let from: Vec<String> = roms.iter().map(|r| r.text()).collect();
@@ -176,7 +199,7 @@ fn gen_rom(g: &mut Gen) -> Option<Rom> {
         _ => RIn::Bound };
     let f = FRESH[g.rng.below(FRESH.len())].to_string();
     let output = match (&input, g.rng.below(4)) { (RIn::Bound, 0) => ROut::Remove, (RIn::Bound, _) => ROut::Repl(f), (_, 0) => ROut::Remove, (_, 1) => ROut::Plus(f), _ => ROut::Repl(f) };
-    Some(Rom { input, output })
+    Some(Rom { input, output, len: (None, None), class: None })
 }
 
 /// `alias-ops <ops> <impl> <tier> <seed> <keys>`: romaniser rendering and deromaniser parsing, implementation answers beside the ops
